@@ -76,3 +76,9 @@ sort_by = Contract("C19.BNPDataClass.sort_by", target=lambda: _cls().sort_by, se
                    canaries=[("sorted by the wrong column", "np.argsort(getattr(self, field_name))", "np.argsort(getattr(self, 'v'))")])
 
 CONTRACTS = [sort_by]
+
+
+# --- implicit conversion of a pre-encoded column to the declared alphabet encoding goes through as_encoded_array's re-target rule (contract proved
+# for C06): a column whose codes do not all denote the same symbols in the declared alphabet must be refused, never silently relabelled.
+from contracts.c06 import mk_retarget      # noqa: E402
+CONTRACTS.append(mk_retarget("C19"))
